@@ -73,6 +73,15 @@ func AuthFirstPacket(firstPacket []byte, transport Transport, sta *State) (info 
 		return
 	}
 
+	// X25519 ignores the most significant bit of the peer's public key (RFC 7748
+	// section 5) and no client ever sets it. Refuse it: otherwise a captured packet
+	// with only that bit flipped would still decrypt, and would not even count as
+	// a replay since its random differs
+	if fragments.randPubKey[31]&0x80 != 0 {
+		err = ErrInvalidPubKey
+		return
+	}
+
 	if sta.registerRandom(fragments.randPubKey) {
 		err = ErrReplay
 		return
